@@ -7,6 +7,7 @@ import Mitx.Driver.CallState
 import Mitx.Driver.Depend
 import Mitx.Driver.Tol
 import Mitx.Driver.SumG
+import Mitx.Driver.Safety
 open Lean
 
 def dispatch (op : String) (j : Json) : Except String Json :=
@@ -25,6 +26,9 @@ def dispatch (op : String) (j : Json) : Except String Json :=
   | "depend" => Drv.depend j
   | "within_tol" => Drv.withinTolOp j
   | "sum" => Drv.sumOp j
+  | "brackets" => Drv.brackets j
+  | "ensure_text" => Drv.ensureTextOp j
+  | "matrix_recast" => Drv.matrixRecastOp j
   | "sum_positions" => Drv.sumPositions j
   | "sum_precheck" => Drv.sumPrecheck j
   | "formula_grade" => Drv.formulaGradeOp j
